@@ -320,12 +320,12 @@ class VariationalWassersteinDistance(darsia.EMD):
         ], f"Linear solver {self.linear_solver_type} not supported."
         assert self.formulation in [
             "full",
-            "flux-reduced",
+            "flux_reduced",
             "pressure",
         ], f"Formulation {self.formulation} not supported."
 
         if self.linear_solver_type == "ksp":
-            if self.formulation == "flux-reduced":
+            if self.formulation == "flux_reduced":
                 raise ValueError(
                     "KSP solver only supports for full and pressure formulation."
                 )
